@@ -154,12 +154,14 @@ pub fn norm(i: &RItem) -> RItem {
 
 /// A codec that has already consumed a valid greeting (so that it is in its
 /// frame-header state, as on every established connection).
-pub fn codec_after_greeting() -> Codec {
+pub fn codec_after_greeting() -> Result<Codec, (String, String)> {
     let mut c = Codec::new();
     let mut b = BytesMut::from(&rc::default_greeting()[..]);
-    let r = c.decode(&mut b);
-    assert!(matches!(r, Ok(Some(Item::Greeting { .. }))), "greeting decode failed: {:?}", r);
-    c
+    match zvcore::world::guarded(|| c.decode(&mut b)) {
+        Ok(Ok(Some(Item::Greeting { .. }))) => Ok(c),
+        Ok(other) => Err(("greeting/lib-decode-of-the-standard-greeting".into(), format!("the library does not decode the standard 64-byte ZMTP 3.0 / NULL greeting: {:?}", other))),
+        Err(p) => Err(("panic/decode-greeting".into(), format!("decoding the standard 64-byte greeting panicked: {}", p))),
+    }
 }
 
 pub fn msg(frames: &[Vec<u8>]) -> zeromq::ZmqMessage {
